@@ -300,10 +300,14 @@ async def _run_script(ctx, inv, ev, script):
                     await inv.wait(e)
         elif op == 'expect':
             # await bus.expect(EventClass, timeout=...) (a temporary subscription); outcome recorded, never raised
-            _, bus, cls, to = st
-            ctx.rec('EXPB', by=inv.id, bus=bus)
+            _, bus, cls, to, *inc = st
+            want = inc[0] if inc else None       # optional: only the event with this label matches (an include= filter)
+            ctx.rec('EXPB', by=inv.id, bus=bus, want=want, timeout=_val(ctx, to))
+            kw = {}
+            if want is not None:
+                kw['include'] = lambda e: ctx.label(e) == want
             try:
-                got = await ctx.buses[bus].expect(CLASSES[cls], timeout=float(_val(ctx, to)))
+                got = await ctx.buses[bus].expect('*' if cls == '*' else CLASSES[cls], timeout=float(_val(ctx, to)), **kw)
                 ctx.rec('EXPE', by=inv.id, bus=bus, outcome='match', ev=ctx.label(got))
             except TimeoutError:
                 ctx.rec('EXPE', by=inv.id, bus=bus, outcome='timeout')
